@@ -293,6 +293,11 @@ func findReference(msaIn io.Reader, referenceID string) (fastaio.EncodedFastaRec
 	for s.Scan() {
 		line = s.Bytes()
 
+		// blank lines carry no information
+		if len(line) == 0 {
+			continue
+		}
+
 		if first {
 
 			if line[0] != '>' {
@@ -300,6 +305,9 @@ func findReference(msaIn io.Reader, referenceID string) (fastaio.EncodedFastaRec
 			}
 
 			description = string(line[1:])
+			if len(strings.Fields(description)) == 0 {
+				return fastaio.EncodedFastaRecord{}, errors.New("badly formatted fasta file: header line without a sequence ID")
+			}
 			id = strings.Fields(description)[0]
 
 			if id == referenceID {
@@ -323,6 +331,9 @@ func findReference(msaIn io.Reader, referenceID string) (fastaio.EncodedFastaRec
 
 			counter++
 			description = string(line[1:])
+			if len(strings.Fields(description)) == 0 {
+				return fastaio.EncodedFastaRecord{}, errors.New("badly formatted fasta file: header line without a sequence ID")
+			}
 			id = strings.Fields(description)[0]
 			seqBuffer = make([]byte, 0)
 
